@@ -670,14 +670,14 @@ def run(repo, check):
     check.run_rule(rule_r3, repo)
     check.run_rule(rule_r4, repo)
     from sa.rules import c11
-    r5 = c11.rule_r1(repo)
+    r5 = check.call(c11.rule_r1, repo)
     r5.rule = 'C12.R5'
     r5.title = 'skip-and-continue: the scanner folded over a scripted stream with damaged messages (shared with C11.R1)'
     for f in r5.findings:
         f.rule = 'C12.R5'
     check.add(r5)
     from sa.rules import c08
-    r6 = c08.rule_r5(repo)
+    r6 = check.call(c08.rule_r5, repo)
     r6.rule = 'C12.R6'
     r6.title = 'a damaged descriptor list never hits the compiled template of an intact sibling: complete cache key (shared with C08.R5)'
     for f in r6.findings:
